@@ -5,8 +5,9 @@ Model of `plasTeX/Base/LaTeX/Arrays.py` after digestion: `Array.compileColspec`,
 `ArrayCell.digest` (colspan / own colspec from `\multicolumn`), `ArrayCell.borders`,
 `ArrayCell.isBorderOnly`, `ArrayRow.isBorderOnly`, `BorderCommand.applyBorders`,
 `ArrayRow.applyBorders`, `Array.applyBorders` (incl. the colspec styles) and `numCols` of
-`Array.linkCells`.  Transcribed as written (after the `fix:` commits for D7 and D15; the
-pinned variants are kept as `walkAsIs` / `compileAsIs`).
+`Array.linkCells`, and the `colspecStart`/`colspecEnd` links of `Array.linkCells`.  Transcribed as written
+(after the `fix:` commits for D7, D15 and the linkCells column offset; the pinned variants are kept as
+`walkAsIs` / `compileAsIs` / `linkRowAsIs`).
 -/
 namespace PlasVerif.Model.Arrays
 open PlasVerif.Model.Lists
@@ -283,5 +284,23 @@ def rowsOf (arr : Node) : List RowR :=
 
 /-- `numCols` of `Array.linkCells` -/
 def numCols (rows : List RowR) : Nat := (rows.map fun r => (r.map CellR.span).sum).foldl max 0
+
+
+/-- first loop of `Array.linkCells` on one row: for a cell with `colspan > 1` the indices into
+    `self.colspec` of `colspecStart` / `colspecEnd` (`none` = no attributes: not spanning, or the
+    `IndexError` branch that deletes both).  `c` is the column offset of the cell (repaired code:
+    `c += cell.attributes.get('colspan', 1)`). -/
+def linkRow (ncols : Nat) : Nat → RowR → List (Option (Nat × Nat))
+  | _, [] => []
+  | c, cell :: cs =>
+    (if cell.colspan.getD 0 > 1 ∧ c + cell.colspan.getD 0 - 1 < ncols then some (c, c + cell.colspan.getD 0 - 1) else none)
+      :: linkRow ncols (c + cell.span) cs
+
+/-- the pinned code: `for c, cell in enumerate(row)` — the index of the cell in the row -/
+def linkRowAsIs (ncols : Nat) : Nat → RowR → List (Option (Nat × Nat))
+  | _, [] => []
+  | c, cell :: cs =>
+    (if cell.colspan.getD 0 > 1 ∧ c + cell.colspan.getD 0 - 1 < ncols then some (c, c + cell.colspan.getD 0 - 1) else none)
+      :: linkRowAsIs ncols (c + 1) cs
 
 end PlasVerif.Model.Arrays
